@@ -1761,11 +1761,13 @@ Qed.
 (* sessions on one live object: resizing calls, value assignments, queries *)
 Lemma do_call_wf s c : wf s -> call_ok s c -> wf (fst (fst (do_call s c))).
 Proof.
-  intros W H. destruct c as [o|v|a b r|c r e pp]; simpl in *.
+  intros W H. destruct c as [o|v|a b r|c r e pp|o|]; simpl in *.
   - apply exec_wf; auto.
   - destruct W as (W1 & W2 & W3). repeat split; auto.
   - destruct (integrate s a b r); auto.
   - destruct (bin s c r e pp); auto.
+  - destruct (append s o) as [s' [e|]]; auto.
+  - destruct (length (wave s) =? length (value s))%nat; auto.
 Qed.
 Lemma session_wf cs : forall s, wf s -> session_ok s cs ->
   wf (after_session s cs) /\ Forall (fun r => wf (fst (fst r))) (session s cs).
@@ -1819,4 +1821,431 @@ Proof.
     destruct (nl <? 0)%Z eqn:L1; [| destruct (nl =? 0)%Z eqn:L2; [|discriminate] | | destruct (nl =? 0)%Z eqn:L2; [|discriminate]];
     (destruct (nr <? 0)%Z eqn:R1; [| destruct (nr =? 0)%Z eqn:R2; [|discriminate]]); simpl; intros H; inversion H; subst;
     eexists; (split; [reflexivity | split; [discriminate | auto]]).
+Qed.
+
+(* ================================================================== *)
+(* deepen: refusal paths - exactly which inputs raise, and what        *)
+Lemma wave_check_exact w :
+  (wave_check w = Ok w <-> increasing w /\ Forall (fun x => 0 < x) w) /\
+  (wave_check w = Ok w \/ wave_check w = Err ValueError).
+Proof.
+  split; [split|].
+  - intros H. apply wave_check_ok in H. tauto.
+  - intros [H1 H2]. apply wave_check_accepts; auto.
+  - unfold wave_check. repeat destr_if; auto.
+Qed.
+Lemma make_exact w v :
+  (forall s, make w v = Ok s <-> s = mkSp w v /\ wf (mkSp w v)) /\
+  (make w v = Ok (mkSp w v) \/ make w v = Err ValueError).
+Proof.
+  unfold make. destruct (wave_check_exact w) as [[E1 E2] [E3|E3]]; rewrite E3; simpl.
+  - destruct (length w =? length v)%nat eqn:L.
+    + apply Nat.eqb_eq in L. split; auto. intros s. split.
+      * intros H. inversion H; subst. split; auto. destruct (E1 E3). repeat split; auto.
+      * intros [-> _]. reflexivity.
+    + apply Nat.eqb_neq in L. split; auto. intros s. split; [discriminate|]. intros [_ (_ & _ & W)]. simpl in W. contradiction.
+  - split; auto. intros s. split; [discriminate|]. intros [_ (W1 & W2 & _)]. simpl in *.
+    rewrite (E2 (conj W1 W2)) in E3. discriminate.
+Qed.
+
+Lemma last3_some (p : list (Qc * Qc)) : (3 <= length p)%nat -> last3 p <> None.
+Proof.
+  intros H. unfold last3. rewrite <- (rev_length p) in H.
+  destruct (rev p) as [|c [|b [|a r]]]; simpl in H; try lia. discriminate.
+Qed.
+Lemma simpson_refuses_exactly p : (simpson p = Err ValueError <-> p = []) /\ (p <> [] -> exists x, simpson p = Ok x).
+Proof.
+  destruct p as [|[x0 y0] [|[x1 y1] [|q2 t]]].
+  - split; [tauto|congruence].
+  - split; [split; discriminate | intros _; simpl; eauto].
+  - split; [split; discriminate | intros _; simpl; eauto].
+  - rewrite simpson_ge3. destruct (Nat.even _).
+    + pose proof (last3_some ((x0, y0) :: (x1, y1) :: q2 :: t)) as L.
+      destruct (last3 ((x0, y0) :: (x1, y1) :: q2 :: t)) as [[[[xa ya] [xb yb]] [xc yc]]|].
+      * split; [split; discriminate | intros _; eauto].
+      * exfalso. apply L; [simpl; lia | reflexivity].
+    + split; [split; discriminate | intros _; eauto].
+Qed.
+Lemma qminl_ok l : l <> [] -> exists m, qminl l = Ok m.
+Proof.
+  induction l as [|a [|b t] IH]; intros H; [congruence | simpl; eauto |].
+  destruct IH as [m Hm]; [discriminate|].
+  change (qminl (a :: b :: t)) with (rbind (qminl (b :: t)) (fun m => Ok (qmin a m))). rewrite Hm. simpl. eauto.
+Qed.
+Lemma qmaxl_ok l : l <> [] -> exists m, qmaxl l = Ok m.
+Proof.
+  induction l as [|a [|b t] IH]; intros H; [congruence | simpl; eauto |].
+  destruct IH as [m Hm]; [discriminate|].
+  change (qmaxl (a :: b :: t)) with (rbind (qmaxl (b :: t)) (fun m => Ok (qmax a m))). rewrite Hm. simpl. eauto.
+Qed.
+(* integrate: the trapezoid rule never refuses explicit bounds; Simpson refuses exactly an empty selection; a missing
+   bound is refused exactly on an empty spectrum; every refusal is a ValueError *)
+Lemma integrate_refusals s :
+  (forall lo hi, exists x, integrate s (Some lo) (Some hi) Trapz = Ok x) /\
+  (forall lo hi, (integrate s (Some lo) (Some hi) Simps = Err ValueError <-> select lo hi (samples s) = []) /\
+                 (select lo hi (samples s) <> [] -> exists x, integrate s (Some lo) (Some hi) Simps = Ok x)) /\
+  (wave s = [] -> forall a b r, (a = None \/ b = None) -> integrate s a b r = Err ValueError) /\
+  (forall a b r e, integrate s a b r = Err e -> e = ValueError).
+Proof.
+  split; [|split; [|split]].
+  - intros lo hi. unfold integrate. simpl. eauto.
+  - intros lo hi. unfold integrate. simpl. apply simpson_refuses_exactly.
+  - intros E a b r H. unfold integrate. rewrite E. destruct a as [a|]; simpl; auto.
+    destruct b as [b|]; simpl; auto. destruct H; congruence.
+  - intros a b r e. unfold integrate.
+    destruct (match a with Some x => Ok x | None => qminl (wave s) end) as [lo|e1] eqn:Ea; simpl.
+    + destruct (match b with Some x => Ok x | None => qmaxl (wave s) end) as [hi|e2] eqn:Eb; simpl.
+      * destruct r; simpl; [discriminate|]. intros H.
+        destruct (select lo hi (samples s)) as [|q t] eqn:Es.
+        -- simpl in H. congruence.
+        -- destruct (proj2 (simpson_refuses_exactly (q :: t))) as [x Hx]; [discriminate|]. congruence.
+      * intros H. inversion H; subst. destruct b; [discriminate|]. destruct (wave s) as [|w0 wt]; [simpl in Eb; congruence|].
+        destruct (qmaxl_ok (w0 :: wt)) as [m Hm]; [discriminate|]. congruence.
+    + intros H. inversion H; subst. destruct a; [discriminate|]. destruct (wave s) as [|w0 wt]; [simpl in Ea; congruence|].
+      destruct (qminl_ok (w0 :: wt)) as [m Hm]; [discriminate|]. congruence.
+Qed.
+
+Lemma find_first_none f l o : find_first f l o = None <-> forall x, In x l -> f x = false.
+Proof.
+  revert o. induction l as [|a t IH]; intros o; simpl; [split; auto; intros _ x []|].
+  destruct (f a) eqn:E.
+  - split; [discriminate|]. intros H. rewrite (H a) in E by auto. discriminate.
+  - rewrite IH. split; [intros H x [<-|Hx]; auto | intros H x Hx; auto].
+Qed.
+Lemma find_last_none f l o : find_last f l o = None <-> forall x, In x l -> f x = false.
+Proof.
+  revert o. induction l as [|a t IH]; intros o; simpl; [split; auto; intros _ x []|].
+  destruct (find_last f t (Datatypes.S o)) eqn:E.
+  - split; [discriminate|]. intros H. assert (K : find_last f t (Datatypes.S o) = None) by (apply (proj2 (IH _)); auto). congruence.
+  - pose proof (proj1 (IH _) E) as E'. clear E. rename E' into E. destruct (f a) eqn:Fa.
+    + split; [discriminate|]. intros H. rewrite (H a) in Fa by auto. discriminate.
+    + split; auto. intros _ x [<-|Hx]; auto.
+Qed.
+(* ends: ValueError exactly without a positive value, IndexError exactly when the maximum is positive but no value
+   relative to it exceeds the tolerance *)
+Lemma ends_refusals s tol :
+  (ends s tol = Err ValueError <-> value s = [] \/ exists m, qmaxl (value s) = Ok m /\ m <= 0) /\
+  (ends s tol = Err IndexError <-> exists m, qmaxl (value s) = Ok m /\ 0 < m /\ forall v, In v (value s) -> ~ tol < v / m) /\
+  (forall e, ends s tol = Err e -> e = ValueError \/ e = IndexError).
+Proof.
+  unfold ends. destruct (value s) as [|v0 vt] eqn:Ev.
+  - simpl. split; [split; auto|]. split; [split; [discriminate | intros (m & H & _); discriminate]|]. intros e H. inversion H. auto.
+  - set (l := v0 :: vt) in *. assert (Hl : l <> []) by discriminate. clearbody l.
+    destruct (qmaxl_ok l Hl) as [m Hm]. rewrite Hm. cbn [rbind].
+    destruct (qle m 0) eqn:E0.
+    + qb. split; [split; auto; intros _; right; eauto|]. split.
+      * split; [discriminate|]. intros (m' & H1 & H2 & _). (assert (m' = m) by congruence). subst m'. exfalso. eapply Qcle_not_lt; eauto.
+      * intros e H. inversion H. auto.
+    + qb. set (above := fun v => qlt tol (v / m)).
+      destruct (find_first above l 0%nat) as [i|] eqn:Ei.
+      * destruct (find_last above l 0%nat) as [j|] eqn:Ej.
+        -- split; [split; [discriminate | intros [H|(m' & H1 & H2)]; [congruence | (assert (m' = m) by congruence); subst m'; exfalso; eapply Qcle_not_lt; eauto]]|].
+           split; [|discriminate]. split; [discriminate|]. intros (m' & H1 & _ & H3). (assert (m' = m) by congruence). subst m'.
+           destruct (find_first_spec _ _ _ _ 0 Ei) as (k & _ & K1 & K2 & _). exfalso. apply (H3 (nth k l 0)).
+           ++ apply nth_In. exact K1.
+           ++ apply qlt_iff. exact K2.
+        -- exfalso. pose proof (proj1 (find_last_none _ _ _) Ej) as Ej'. destruct (find_first_spec _ _ _ _ 0 Ei) as (k & _ & K1 & K2 & _).
+           rewrite Ej' in K2; [discriminate | apply nth_In; exact K1].
+      * pose proof (proj1 (find_first_none _ _ _) Ei) as Ei'.
+        split; [split; [discriminate | intros [H|(m' & H1 & H2)]; [congruence | (assert (m' = m) by congruence); subst m'; exfalso; eapply Qcle_not_lt; eauto]]|].
+        split; [|intros e H; inversion H; auto]. split; auto. intros _. exists m. repeat split; auto.
+        intros v Hv K. apply qlt_iff in K. unfold above in Ei'. rewrite (Ei' v Hv) in K. discriminate.
+Qed.
+
+(* sample / bin: every refusal is a ValueError, and exactly these inputs are refused *)
+Lemma sample_exact s xs :
+  (sample s xs = Err ValueError <-> wave s = [] \/ length (wave s) <> length (value s)) /\
+  (wave s <> [] -> length (wave s) = length (value s) -> sample s xs = Ok (map (interp (wave s) (value s)) xs)) /\
+  (forall e, sample s xs = Err e -> e = ValueError).
+Proof.
+  unfold sample. destruct (wave s) as [|w0 wt] eqn:Ew.
+  - simpl. split; [split; auto|]. split; [congruence|]. intros e H. inversion H. auto.
+  - change (length (w0 :: wt) =? 0)%nat with false. cbv iota.
+    set (w := w0 :: wt) in *. assert (Hw : w <> []) by discriminate. clearbody w.
+    destruct (length w =? length (value s))%nat eqn:L; simpl.
+    + apply Nat.eqb_eq in L. split; [split; [discriminate | intros [H|H]; [contradiction | contradiction]]|].
+      split; [reflexivity | discriminate].
+    + apply Nat.eqb_neq in L. split; [split; auto|]. split; [intros _ K; contradiction|]. intros e H. inversion H. auto.
+Qed.
+Lemma raw_bins_refusals s c r e :
+  (raw_bins s c r e = Err ValueError <->
+     (length c < 2)%nat \/ wave s = [] \/ length (wave s) <> length (value s)) /\
+  (forall err, raw_bins s c r e = Err err -> err = ValueError).
+Proof.
+  unfold raw_bins. destruct (length c <? 2)%nat eqn:L.
+  - apply Nat.ltb_lt in L. split; [split; auto|]. intros err H. inversion H. auto.
+  - apply Nat.ltb_ge in L.
+    set (x := match r with Trapz => bin_edges_trapz e c | Simps => bin_nodes_simps e c end).
+    destruct (sample_exact s x) as (S1 & S2 & S3).
+    destruct (sample s x) as [f|e1] eqn:Es; simpl.
+    + split; [|discriminate]. split; [discriminate|]. intros [H|H]; [lia|]. apply S1 in H. discriminate.
+    + pose proof (S3 _ eq_refl). subst e1. split; [|intros err H; inversion H; auto].
+      split; [intros _; right; apply S1; reflexivity | auto].
+Qed.
+Lemma bin_refusals s c r e pp :
+  (bin s c r e pp = Err ValueError <->
+     (length c < 2)%nat \/ wave s = [] \/ length (wave s) <> length (value s) \/
+     (pp = true /\ r = Simps /\ exists lo hi, qminl c = Ok lo /\ qmaxl c = Ok hi /\ select lo hi (samples s) = [])) /\
+  (forall err, bin s c r e pp = Err err -> err = ValueError).
+Proof.
+  unfold bin. destruct (raw_bins_refusals s c r e) as [R1 R2].
+  destruct (raw_bins s c r e) as [b|e1] eqn:Er; simpl.
+  - assert (Lc : (2 <= length c)%nat).
+    { unfold raw_bins in Er. destruct (length c <? 2)%nat eqn:L; [discriminate|]. apply Nat.ltb_ge in L. exact L. }
+    assert (NR : ~ ((length c < 2)%nat \/ wave s = [] \/ length (wave s) <> length (value s))).
+    { intros H. apply R1 in H. discriminate. }
+    destruct pp.
+    + assert (Hc : c <> []) by (destruct c; simpl in Lc; [lia | discriminate]).
+      destruct (qminl_ok c Hc) as [lo Hlo]. destruct (qmaxl_ok c Hc) as [hi Hhi]. rewrite Hlo, Hhi. simpl.
+      destruct (integrate_refusals s) as (I1 & I2 & _ & I4). destruct r.
+      * destruct (I1 lo hi) as [x Hx]. rewrite Hx. simpl. split.
+        -- split; [destruct (qeqb (qsum b) 0); discriminate|]. intros [H|[H|[H|(_ & H & _)]]]; try discriminate; exfalso; apply NR; auto.
+        -- intros err. destruct (qeqb (qsum b) 0); discriminate.
+      * destruct (I2 lo hi) as [J1 J2]. destruct (integrate s (Some lo) (Some hi) Simps) as [x|e2] eqn:Ei; simpl.
+        -- split; [|intros err; destruct (qeqb (qsum b) 0); discriminate].
+           split; [destruct (qeqb (qsum b) 0); discriminate|].
+           intros [H|[H|[H|(_ & _ & lo' & hi' & H1 & H2 & H3)]]]; try (exfalso; apply NR; auto; fail).
+           assert (lo' = lo) by congruence. assert (hi' = hi) by congruence. subst. apply J1 in H3. discriminate.
+        -- pose proof (I4 _ _ _ _ Ei). subst e2. split; [|intros err H; inversion H; auto].
+           split; auto. intros _. right. right. right. repeat split; auto. exists lo, hi. repeat split; auto. apply J1. reflexivity.
+    + split; [|discriminate]. split; [discriminate|]. intros [H|[H|[H|(H & _)]]]; try discriminate; exfalso; apply NR; auto.
+  - pose proof (R2 _ eq_refl). subst e1. split; [|intros err H; inversion H; auto].
+    split; auto. intros _. destruct (proj1 R1 eq_refl) as [H|[H|H]]; auto.
+Qed.
+
+(* append: accepted exactly when the two grids broadcast (equal lengths, or one of them has one sample) and the
+   appended grid starts above the caller's last wavelength; every refusal is a ValueError *)
+Definition bcompat (a b : nat) : Prop := a = b \/ a = 1%nat \/ b = 1%nat.
+Lemma existsb_false {A} (f : A -> bool) l : existsb f l = false <-> forall x, In x l -> f x = false.
+Proof.
+  induction l; simpl; [split; auto; intros _ x []|]. rewrite orb_false_iff, IHl. split.
+  - intros [H1 H2] x [<-|Hx]; auto.
+  - intros H. split; auto.
+Qed.
+Lemma bcast_compat a b : (exists r, bcast_any_le a b = Ok r) <-> bcompat (length a) (length b).
+Proof.
+  unfold bcast_any_le, bcompat. destruct (length a =? length b)%nat eqn:E.
+  - apply Nat.eqb_eq in E. split; eauto.
+  - apply Nat.eqb_neq in E. destruct a as [|x [|x' a']].
+    + destruct b as [|y [|y' b']]; simpl in *; split; try (intros [r H]; discriminate); try (intros [H|[H|H]]; congruence); eauto.
+    + split; eauto.
+    + destruct b as [|y [|y' b']]; simpl in *; split; try (intros [r H]; discriminate); try (intros [H|[H|H]]; try congruence; try lia); eauto.
+Qed.
+Lemma increasing_app w1 w2 : increasing w1 -> increasing w2 ->
+  (w1 = [] \/ w2 = [] \/ last w1 0 < hd 0 w2) -> increasing (w1 ++ w2).
+Proof.
+  induction w1 as [|a [|b t] IH]; intros I1 I2 H; simpl app; auto.
+  - destruct w2 as [|c u]; [simpl; auto|]. destruct H as [H|[H|H]]; try discriminate. simpl in H. split; auto.
+  - destruct I1 as [J1 J2]. change (increasing (a :: (b :: t) ++ w2)). 
+    assert (K : increasing ((b :: t) ++ w2)).
+    { apply IH; auto. destruct H as [H|[H|H]]; [discriminate | auto | right; right; exact H]. }
+    simpl app in *. split; auto.
+Qed.
+Lemma increasing_app_inv w1 w2 : increasing (w1 ++ w2) -> w1 <> [] -> w2 <> [] -> last w1 0 < hd 0 w2.
+Proof.
+  intros I H1 H2. apply increasing_SS in I. apply (SS_app_lt _ _ _ I).
+  - apply last_In. auto.
+  - destruct w2; [congruence | left; reflexivity].
+Qed.
+Lemma append_accepts_exactly s o : wf s -> wf o ->
+  (snd (append s o) = None <->
+     bcompat (length (wave o)) (length (wave s)) /\ (wave s = [] \/ wave o = [] \/ last (wave s) 0 < hd 0 (wave o))) /\
+  (forall e, snd (append s o) = Some e -> e = ValueError /\ fst (append s o) = s).
+Proof.
+  intros (S1 & S2 & S3) (O1 & O2 & O3).
+  assert (WC : wave s = [] \/ wave o = [] \/ last (wave s) 0 < hd 0 (wave o) -> wave_check (wave s ++ wave o) = Ok (wave s ++ wave o)).
+  { intros H. apply wave_check_accepts; [apply increasing_app; auto | apply Forall_app; auto]. }
+  assert (WC' : forall w', wave_check (wave s ++ wave o) = Ok w' -> wave s = [] \/ wave o = [] \/ last (wave s) 0 < hd 0 (wave o)).
+  { intros w' H. apply wave_check_ok in H. destruct H as (_ & I & _).
+    destruct (wave s) as [|a t] eqn:Es; auto. destruct (wave o) as [|b u] eqn:Eo; auto.
+    right. right. apply increasing_app_inv; auto; discriminate. }
+  (* above the last wavelength: no element of the appended grid is <= any element of the caller's grid *)
+  assert (GAP : wave s = [] \/ wave o = [] \/ last (wave s) 0 < hd 0 (wave o) ->
+                forall x y, In x (wave o) -> In y (wave s) -> qle x y = false).
+  { intros H x y Hx Hy. destruct H as [H|[H|H]]; [rewrite H in Hy; destruct Hy | rewrite H in Hx; destruct Hx |].
+    apply qle_false. eapply Qcle_lt_trans; [apply (increasing_le_last _ 0 _ S1 Hy)|].
+    eapply Qclt_le_trans; [exact H|]. destruct (wave o) as [|b u]; [destruct Hx|]. apply (increasing_head_le b u); auto. }
+  unfold append. split.
+  - split.
+    + intros H. destruct (bcast_any_le (wave o) (wave s)) as [[|]|] eqn:Eb; try discriminate.
+      destruct (wave_check (wave s ++ wave o)) as [w'|] eqn:Ec; [|discriminate]. split; [|eapply WC'; eauto].
+      apply bcast_compat. eauto.
+    + intros [C G]. apply bcast_compat in C. destruct C as [r Hr]. rewrite Hr.
+      assert (r = false).
+      { unfold bcast_any_le in Hr. specialize (GAP G).
+        destruct (length (wave o) =? length (wave s))%nat.
+        - apply Ok_inj in Hr. rewrite <- Hr. apply existsb_false. intros [x y] Hq. simpl. apply GAP; [eapply in_combine_l | eapply in_combine_r]; eauto.
+        - destruct (wave o) as [|x [|x' ot]].
+          + destruct (wave s) as [|y [|y' st]]; inversion Hr; auto.
+          + apply Ok_inj in Hr. rewrite <- Hr. apply existsb_false. intros y Hy. apply GAP; [left; auto | auto].
+          + destruct (wave s) as [|y [|y' st]]; try discriminate. apply Ok_inj in Hr. rewrite <- Hr.
+            apply existsb_false. intros x0 Hx0. apply GAP; [auto | left; auto]. }
+      subst r. rewrite (WC G). reflexivity.
+  - intros e. destruct (bcast_any_le (wave o) (wave s)) as [[|]|e1] eqn:Eb; simpl.
+    + intros H. inversion H. auto.
+    + destruct (wave_check (wave s ++ wave o)) as [w'|e2] eqn:Ec; simpl; [discriminate|]. intros H. inversion H; subst.
+      split; auto. eapply wave_check_err; eauto.
+    + intros H. inversion H; subst. split; auto. unfold bcast_any_le in Eb.
+      destruct (length (wave o) =? length (wave s))%nat; [discriminate|].
+      destruct (wave o) as [|x [|x' ot]]; destruct (wave s) as [|y [|y' st]]; inversion Eb; auto.
+Qed.
+
+(* the interpolant vanishes outside the table *)
+Lemma interp_from_above w v x : increasing w -> length w = length v -> w <> [] -> last w 0 < x -> interp_from w v x = 0.
+Proof.
+  revert v. induction w as [|x0 wt IH]; intros v I L N H; [congruence|].
+  destruct v as [|y0 vt]; [discriminate|]. simpl in L. injection L as L.
+  destruct wt as [|x1 wt'].
+  - simpl in *. replace (qeqb x x0) with false; auto. symmetry. apply qeqb_false. intro K. subst. eapply Qclt_not_eq; eauto.
+  - destruct vt as [|y1 vt']; [discriminate|]. destruct I as [I1 I2].
+    change (interp_from (x0 :: x1 :: wt') (y0 :: y1 :: vt') x)
+      with (if qlt x x1 then y0 + ((y1 - y0) / (x1 - x0)) * (x - x0) else interp_from (x1 :: wt') (y1 :: vt') x).
+    change (last (x0 :: x1 :: wt') 0) with (last (x1 :: wt') 0) in H.
+    destruct (qlt x x1) eqn:E; [|apply IH; auto; discriminate]. qb. exfalso.
+    apply (Qclt_not_le _ _ E). apply Qclt_le_weak. eapply Qcle_lt_trans; [|exact H].
+    apply increasing_le_last; auto. left; auto.
+Qed.
+Lemma interp_outside w v x : increasing w -> length w = length v ->
+  (w = [] \/ x < hd 0 w \/ last w 0 < x) -> interp w v x = 0.
+Proof.
+  intros I L H. unfold interp. destruct w as [|x0 wt]; auto. destruct H as [H|[H|H]]; [discriminate | |].
+  - simpl in H. apply qlt_iff in H. rewrite H. reflexivity.
+  - destruct (qlt x x0); auto. apply interp_from_above; auto. discriminate.
+Qed.
+
+(* ------------------------------------------------------------------ *)
+(* pad, exactly: how many samples are added on each side, where they start and stop, what they carry *)
+Lemma linspace_length a b n : (1 <= n)%Z -> length (linspace a b n) = Z.to_nat n.
+Proof.
+  intros H. unfold linspace. destruct (n =? 1)%Z eqn:E; [apply Z.eqb_eq in E; subst; reflexivity|].
+  rewrite map_length, seq_length. reflexivity.
+Qed.
+Lemma ofZ_0 : ofZ 0 = 0. Proof. apply Qc_is_canon. reflexivity. Qed.
+Lemma ofZ_neq0 z : z <> 0%Z -> ofZ z <> 0.
+Proof.
+  intros H K. apply H. apply Qc_eq_this in K. unfold ofZ, Q2Qc in K. cbn [this] in K.
+  pose proof (Qred_correct (inject_Z z)) as R. rewrite R in K. change (Qred 0) with 0%Q in K.
+  unfold Qeq, inject_Z in K. simpl in K. lia.
+Qed.
+Lemma linspace_hd a b n : (2 <= n)%Z -> hd 0 (linspace a b n) = a.
+Proof.
+  intros H. unfold linspace. replace (n =? 1)%Z with false by (symmetry; apply Z.eqb_neq; lia).
+  destruct (Z.to_nat n) as [|k] eqn:E; [lia|]. simpl. change (Z.of_nat 0) with 0%Z. rewrite ofZ_0. ring.
+Qed.
+Lemma last_map_seq {A} (f : nat -> A) k d : last (map f (seq 0 (Datatypes.S k))) d = f k.
+Proof. rewrite seq_S, map_app. simpl. apply last_last. Qed.
+Lemma linspace_last a b n : (2 <= n)%Z -> last (linspace a b n) 0 = b.
+Proof.
+  intros H. unfold linspace. replace (n =? 1)%Z with false by (symmetry; apply Z.eqb_neq; lia).
+  destruct (Z.to_nat n) as [|k] eqn:E; [lia|]. rewrite last_map_seq.
+  replace (Z.of_nat k) with (n - 1)%Z by lia. field. apply ofZ_neq0. lia.
+Qed.
+Lemma hd_removelast (l : list Qc) d : (2 <= length l)%nat -> hd d (removelast l) = hd d l.
+Proof. destruct l as [|a [|b t]]; simpl; intros; try lia; reflexivity. Qed.
+Lemma last_tl (l : list Qc) d : (2 <= length l)%nat -> last (tl l) d = last l d.
+Proof. destruct l as [|a [|b t]]; simpl; intros; try lia; reflexivity. Qed.
+Lemma tl_length {A} (l : list A) : length (tl l) = pred (length l).
+Proof. destruct l; reflexivity. Qed.
+
+Lemma last_indep {A} (l : list A) d d' : l <> [] -> last l d = last l d'.
+Proof. induction l as [|a [|b t] IH]; intros H; [congruence | reflexivity |]. apply IH. discriminate. Qed.
+Lemma pad_exact s e0 e1 sm md s' : wf s -> pad s e0 e1 sm md = (s', None) ->
+  exists v0 v1 dw w0 L R,
+    (match md with PadConst a b => v0 = a /\ v1 = b | PadEdge => v0 = hd 0 (value s) /\ v1 = last (value s) 0 end) /\
+    (match sm with Some d => dw = d | None => min_diff (wave s) = Ok dw end) /\
+    hd_error (wave s) = Some w0 /\
+    let nl := (Qceiling ((w0 - e0) / dw) + 1)%Z in
+    let nr := (Qceiling ((e1 - last (wave s) 0%Qc) / dw) + 1)%Z in
+    (1 <= nl)%Z /\ (1 <= nr)%Z /\
+    wave s' = L ++ wave s ++ R /\ value s' = repeat v0 (length L) ++ value s ++ repeat v1 (length R) /\
+    Z.of_nat (length L) = (nl - 1)%Z /\ Z.of_nat (length R) = (nr - 1)%Z /\
+    (L <> [] -> hd 0 L = e0) /\ (R <> [] -> last R 0 = e1) /\
+    (forall x, In x L -> x < w0) /\ (forall x, In x R -> last (wave s) 0 < x) /\ wf s'.
+Proof.
+  intros W H. pose proof (pad_spec s e0 e1 sm md W) as PS. rewrite H in PS. destruct PS as [W' _].
+  unfold pad in H.
+  destruct (match md with PadConst a b => Ok (a, b) | PadEdge => _ end) as [[v0 v1]|] eqn:Em; [|inversion H].
+  destruct (match sm with Some d => Ok d | None => min_diff (wave s) end) as [dw|] eqn:Es; [|inversion H].
+  destruct (wave s) as [|w0 wt] eqn:Ew; [inversion H|].
+  set (wl := last (w0 :: wt) w0) in *.
+  set (nl := (Qceiling ((w0 - e0) / dw) + 1)%Z) in *. set (nr := (Qceiling ((e1 - wl) / dw) + 1)%Z) in *.
+  destruct (nl <? 0)%Z eqn:L1; [inversion H|]. destruct (nl =? 0)%Z eqn:L2; [inversion H|].
+  destruct (nr <? 0)%Z eqn:R1; [inversion H|]. destruct (nr =? 0)%Z eqn:R2; [inversion H|].
+  apply Z.ltb_ge in L1, R1. apply Z.eqb_neq in L2, R2.
+  set (L := removelast (linspace e0 w0 nl)) in *. set (R := tl (linspace wl e1 nr)) in *.
+  destruct (wave_check (L ++ (w0 :: wt) ++ R)) as [w'|] eqn:Ec; [|inversion H].
+  apply wave_check_ok in Ec. destruct Ec as (-> & C1 & C2). inversion H; subst s'. clear H.
+  assert (Wl : wl = last (w0 :: wt) 0) by (unfold wl; apply last_indep; discriminate).
+  exists v0, v1, dw, w0, L, R. rewrite <- Wl. fold nl nr.
+  assert (LL : Z.of_nat (length L) = (nl - 1)%Z).
+  { unfold L. rewrite removelast_length, linspace_length by lia. lia. }
+  assert (LR : Z.of_nat (length R) = (nr - 1)%Z).
+  { unfold R. rewrite tl_length, linspace_length by lia. lia. }
+  split.
+  { destruct md as [a b|]; [inversion Em; auto|]. destruct (value s) as [|y0 vt] eqn:Ev; [discriminate|].
+    inversion Em; subst. split; [reflexivity|]. change (last (v0 :: vt) v0 = last (v0 :: vt) 0). apply last_indep. discriminate. }
+  split; [destruct sm; [inversion Es; auto | exact Es]|].
+  split; [reflexivity|]. cbv zeta.
+  split; [lia|]. split; [lia|]. split; [reflexivity|]. split; [reflexivity|]. split; [exact LL|]. split; [exact LR|].
+  apply increasing_SS in C1.
+  split; [|split; [|split; [|split; [|exact W']]]].
+  - intros HL. assert (2 <= nl)%Z by (destruct L; [congruence | simpl in LL; lia]).
+    unfold L. rewrite hd_removelast by (rewrite linspace_length by lia; lia). apply linspace_hd. auto.
+  - intros HR. assert (2 <= nr)%Z by (destruct R; [congruence | simpl in LR; lia]).
+    unfold R. rewrite last_tl by (rewrite linspace_length by lia; lia). apply linspace_last. auto.
+  - intros x Hx. apply (SS_app_lt _ _ _ C1 x w0); auto. left. reflexivity.
+  - intros x Hx. rewrite app_assoc in C1. apply (SS_app_lt _ _ _ C1 wl x); auto.
+    apply in_or_app. right. rewrite Wl. apply last_In. discriminate.
+Qed.
+
+(* concrete instances for the refusal / exactness statements *)
+Lemma deepen_examples :
+  let sp := mkSp [qq 1 1; qq 2 1; qq 4 1; qq 8 1] [qq 1 1; qq 3 1; qq 7 1; qq 2 1] in
+  let e := mkSp [] [] in
+  (* wave setter, constructor *)
+  wave_check [qq 2 1; qq 1 1] = Err ValueError /\ wave_check [qq 1 1; qq 1 1] = Err ValueError /\
+  wave_check [qq 0 1; qq 1 1] = Err ValueError /\ (exists w, wave_check [qq 1 1; qq 2 1; qq 4 1] = Ok w) /\
+  make [qq 1 1; qq 2 1] [qq 5 1] = Err ValueError /\ (exists s, make [qq 1 1; qq 2 1] [qq 5 1; qq 6 1] = Ok s) /\
+  (* integrate *)
+  integrate sp (Some (qq 5 2)) (Some (qq 3 1)) Simps = Err ValueError /\ select (qq 5 2) (qq 3 1) (samples sp) = [] /\
+  (exists x, integrate sp (Some (qq 5 2)) (Some (qq 3 1)) Trapz = Ok x) /\
+  integrate e None (Some (qq 3 1)) Trapz = Err ValueError /\
+  (* ends *)
+  ends (mkSp [qq 1 1; qq 2 1; qq 3 1] [qq (-1) 1; qq 0 1; qq (-2) 1]) (qq 0 1) = Err ValueError /\
+  ends (mkSp [qq 1 1; qq 2 1; qq 3 1] [qq 1 1; qq 0 1; qq 2 1]) (qq 1 1) = Err IndexError /\
+  ends (mkSp [qq 1 1; qq 2 1; qq 3 1] [qq 1 1; qq 0 1; qq 2 1]) (qq 1 4) = Ok (0%nat, 2%nat) /\
+  (* sample, bin *)
+  sample e [qq 1 1] = Err ValueError /\ (exists f, sample sp [qq 3 1; qq 9 1] = Ok f) /\
+  bin sp [qq 2 1] Trapz Inside false = Err ValueError /\
+  bin sp [qq 5 1; qq 6 1; qq 7 1] Simps Inside true = Err ValueError /\
+  (exists b, bin sp [qq 5 1; qq 6 1; qq 7 1] Simps Inside false = Ok b) /\
+  (* append *)
+  snd (append (mkSp [qq 1 1; qq 2 1; qq 13 2] [qq 1 1; qq 1 1; qq 1 1]) (mkSp [qq 5 1; qq 6 1; qq 7 1] [qq 2 1; qq 2 1; qq 2 1]))
+    = Some ValueError /\
+  snd (append (mkSp [qq 1 1; qq 2 1; qq 3 1] [qq 1 1; qq 1 1; qq 1 1]) (mkSp [qq 4 1; qq 5 1] [qq 2 1; qq 2 1])) = Some ValueError /\
+  snd (append (mkSp [qq 1 1; qq 2 1; qq 3 1] [qq 1 1; qq 1 1; qq 1 1]) (mkSp [qq 4 1; qq 5 1; qq 6 1] [qq 2 1; qq 2 1; qq 2 1])) = None /\
+  (* pad *)
+  (exists s', pad (mkSp [qq 3 2; qq 5 2; qq 9 2] [qq 2 1; qq 4 1; qq 1 1]) (qq 1 2) (qq 11 2) None PadEdge = (s', None) /\
+              length (wave s') = 5%nat) /\
+  pad_other_refusal (mkSp [qq 2 1; qq 3 1; qq 4 1] [qq 1 1; qq 1 1; qq 1 1]) (qq 4 1) (qq 3 1) None (PadConst 0 0) = Some IndexError.
+Proof.
+  intros sp e. repeat match goal with |- _ /\ _ => split end.
+  all: try (vm_compute; reflexivity).
+  all: try (eexists; vm_compute; reflexivity).
+  all: try (eexists; split; vm_compute; reflexivity).
+Qed.
+
+(* append(copy=True) and asarray: the caller is not touched; the copy is the accepted in-place result *)
+Lemma copy_calls s : wf s ->
+  (forall o, length (wave o) = length (value o) ->
+     fst (fst (do_call s (CAppendCopy o))) = s /\
+     match append s o with
+     | (s', None) => do_call s (CAppendCopy o) = ((s, None), ASpec s') /\ wf s' /\ samples s' = samples s ++ samples o
+     | (_, Some e) => do_call s (CAppendCopy o) = ((s, Some e), ANone)
+     end) /\
+  do_call s CAsArray = ((s, None), ASpec s).
+Proof.
+  intros W. split.
+  - intros o Ho. pose proof (append_spec s o W Ho) as A. simpl. destruct (append s o) as [s' [e|]]; simpl; auto.
+  - simpl. destruct W as (_ & _ & L). rewrite L, Nat.eqb_refl. reflexivity.
 Qed.
